@@ -137,11 +137,15 @@ class Interp:
                 raise Raised("TypeError", (f"missing argument {n}",))
         if isinstance(fn, ast.Lambda):
             return self.eval(fn.body, env)
+        is_gen = any(isinstance(n, (ast.Yield, ast.YieldFrom)) for n in _walk_own(fn))
+        if is_gen:
+            # generator functions are run eagerly; the call evaluates to the list of yielded values
+            env["__yields__"] = []
         try:
             self.exec_block(fn.body, env)
         except _Return as r:
-            return r.v
-        return None
+            return env["__yields__"] if is_gen else r.v
+        return env["__yields__"] if is_gen else None
 
     # ------------------------------------------------------------------ statements
     def exec_block(self, body, env):
@@ -537,6 +541,22 @@ class Interp:
         self._comp(n.generators, env, lambda e: out.__setitem__(self.eval(n.key, e), self.eval(n.value, e)))
         return out
 
+    def _yields(self, env):
+        e = env
+        while e is not None:
+            if "__yields__" in e:
+                return e["__yields__"]
+            e = e.get("__parent__")
+        raise AnalysisError(f"{self.name}: yield outside a generator function")
+
+    def e_Yield(self, n, env):
+        self._yields(env).append(self.eval(n.value, env) if n.value is not None else None)
+        return None
+
+    def e_YieldFrom(self, n, env):
+        self._yields(env).extend(self.iterate(self.eval(n.value, env)))
+        return None
+
     def e_Lambda(self, n, env):
         return Closure(n, env, self)
 
@@ -655,6 +675,17 @@ class Interp:
             fn = args[0]
             return [self.apply(fn, list(xs), {}) for xs in zip(*[self.iterate(a) for a in args[1:]])]
         raise AnalysisError(f"{self.name}: builtin {name}")
+
+
+def _walk_own(fn):
+    """Nodes of a function body, not descending into nested function definitions."""
+    stack = list(fn.body) if isinstance(fn.body, list) else [fn.body]
+    while stack:
+        n = stack.pop()
+        yield n
+        for c in ast.iter_child_nodes(n):
+            if not isinstance(c, (ast.FunctionDef, ast.AsyncFunctionDef, ast.Lambda)):
+                stack.append(c)
 
 
 def _dotted(node):
